@@ -7,7 +7,7 @@ package c05
 // UpdateTipIndex: after them every branch must carry the bitset of the tips below it and the tip index must
 // number exactly the tips of the tree.  One case line per history:
 //
-//	C05.index <dump before> <steps;> <steps done> <class of the last step> <dump after> <NbTips> <TipIndex of every tip,> <bitset of every branch;> <stale names,>
+//	C05.index <dump before> <steps;> <steps done> <class of the last step> <dump after> <NbTips> <TipIndex of every tip,> <bitset of every branch;> <stale names,> <dump after every step|>
 //
 // step = reroot:<path i.j.k> | unroot | outgroup:<remove>:<strict>:<names joined by +> | midpoint | sort |
 // rerootfirst | rotate:<seed>:<draws d.d.d>;  bitset = "n" (nil) or <length>:<set bits b.b.b>, branches in the
@@ -50,6 +50,16 @@ func undotInts(s string) []int {
 
 // genStep draws the next step of a history from the tree as it is now.
 func genStep(c *core.Ctx, cur *core.N) string {
+	if len(cur.Kids) == 2 && len(cur.TipNames()) >= 3 && c.G.Chance(0.35) {
+		// the tree is rooted (input, or left so by a midpoint / outgroup rooting): outgroup = one of the two
+		// root clades, the root being wherever the previous operation put it on that branch
+		S := cur.Kids[c.G.Intn(2)].Leaves()
+		esc := make([]string, len(S))
+		for i, s := range S {
+			esc[i] = core.Escape(s)
+		}
+		return "outgroup:0:" + b01(c.G.Chance(0.5)) + ":" + strings.Join(esc, "+")
+	}
 	switch r := c.G.Intn(100); {
 	case r < 30:
 		var inner [][]int
@@ -203,6 +213,7 @@ func doIndex(c *core.Ctx, n *core.N, k int, given []string) {
 	cur := n
 	oc, dump := "ok", n.Dump()
 	done := 0
+	trail := ""
 	for j := 0; j < k; j++ {
 		var step string
 		if given != nil {
@@ -218,6 +229,7 @@ func doIndex(c *core.Ctx, n *core.N, k int, given []string) {
 			break
 		}
 		done++
+		trail += dump + "|"
 		var perr error
 		if cur, perr = core.ParseDump(dump); perr != nil {
 			panic(perr)
@@ -259,7 +271,7 @@ func doIndex(c *core.Ctx, n *core.N, k int, given []string) {
 			oc = "panic:" + core.Escape("reading the indexes: "+msg)
 		}
 	}
-	c.Emit("C05.index", n.Dump(), strings.Join(steps, ";")+";", strconv.Itoa(done), oc, dump, nb, ids, bits, stale)
+	c.Emit("C05.index", n.Dump(), strings.Join(steps, ";")+";", strconv.Itoa(done), oc, dump, nb, ids, bits, stale, trail)
 }
 
 func indexCase(c *core.Ctx) {
